@@ -255,7 +255,7 @@ class Type2Tag(Tag):
                 while offset + index in skip_bytes:
                     offset += 1
                 tag_memory[offset+index] = octet
-            offset = offset + index + 1
+            offset = offset + len(data)
             while offset in skip_bytes:
                 offset += 1
             if offset < tag_memory[14] * 8 + 16:
